@@ -12,7 +12,7 @@ from vf.engine import Violation, InvalidCase, quiesce
 from vf.fixtures import check, expect_raises, wone_of
 
 PROPERTY = "C15"
-CASE_TIMEOUT_S = 20      # a case normally takes < 0.2 s; see DESIGN.md 2.9 (hang handling)
+CASE_TIMEOUT_S = 10      # a case normally takes < 0.2 s; see DESIGN.md 2.9 (hang handling)
 BUDGET = {"quick": 800, "thorough": 1200}
 RULE = ("Parameter grids over the fixture model's kwargs (a, b: small lists with repeated values or scalars; stop = the model's own "
         "completion time, scalar or list; cost = per-run sleep 0-4 ms so that completion order is permuted), as dict and as "
@@ -116,6 +116,8 @@ def _run_case(case):
         for k, v in params.items():
             p.add_parameter(k, v)
     kw = {"collectors": coll, "processes": procs, "repetitions": reps}
+    if case.get("coll_tuple") and isinstance(coll, list):
+        kw["collectors"] = tuple(coll)                 # any Iterable of names is documented to work
     if coll == "none":
         kw["collectors"] = None
     if max_ts is not None:
@@ -232,7 +234,7 @@ def strategy(tier):
         "processes": wone_of(st.just(1), st.integers(2, maxp), st.integers(2, maxp), st.integers(2, 3)),
         "max_timesteps": wone_of(st.none(), st.integers(0, 8)),
         "collectors": st.sampled_from(["rec", "rec", ["pre", "rec"], ["pre", "rec"], ["rec"], ["rec", "rec2"], "none", "invalid"]),
-        "plist": st.booleans(),
+        "plist": st.booleans(), "coll_tuple": st.booleans(),
         "fail": wone_of(st.none(), st.none(), st.none(), st.none(), st.integers(0, 11)),
         "fail_where": st.sampled_from(["ctor", "system"]),
     })
